@@ -1,4 +1,6 @@
 import AFProofs.Lemmas.SamplesConv
+import AFProofs.Lemmas.SamplesMore
+import AFProofs.Lemmas.SamplesReal
 import AFProofs.C04
 
 /-!
@@ -374,5 +376,329 @@ example : dynestyConv intOps wPrior [[1], [2]] ([[1], [2]].map wL) [0, 0] [5, 6]
     = some [⟨[1], 1, 0, 1⟩, ⟨[2], 2, 0, 1⟩] := by decide
 
 example : initBatch [[1], [2]] [some 10, none] [0, 1] = [([1], (10 : Int))] := by decide
+
+/-! # growth: further conversions, weights, transformations of a reported sample list
+
+Subjects: `AFModel/SamplesMore.lean` (executed by the driver: queries `nautilus`, `ultranest`, `zeus`, `xform`). -/
+
+/-! ## nested samplers whose packages are not installed: Nautilus, UltraNest -/
+
+/-- **Nautilus.** contract: `posterior()` returns `log_l[i]` = the likelihood of `points[i]`. Then every reported
+sample is faithful (whatever the weights), and with one weight per row no row is lost or reordered. -/
+theorem nautilus_faithful (o : SOps V) (L prior : List V → V) (points : List (List V)) (logw : List V) :
+    (∀ s ∈ nautilusConv o prior points logw (points.map L), Faithful L prior s ∧ s.params ∈ points) ∧
+    (logw.length = points.length →
+      (nautilusConv o prior points logw (points.map L)).map (·.params) = points) := by
+  refine ⟨fun s hs => ?_, fun hl => ?_⟩
+  · have := mem_fromLists_map L prior points _ s hs
+    exact ⟨⟨this.2.1, this.2.2.1⟩, this.1⟩
+  · exact fromLists_params_of_length _ _ _ _ (by simp) (by simp) (by simp [hl])
+
+/-- **UltraNest.** contract: `weighted_samples["logl"][i]` is the likelihood of `weighted_samples["points"][i]`. -/
+theorem ultranest_faithful (L prior : List V → V) (points : List (List V)) (weights : List V) :
+    (∀ s ∈ ultranestConv prior points (points.map L) weights, Faithful L prior s ∧ s.params ∈ points) ∧
+    (weights.length = points.length →
+      (ultranestConv prior points (points.map L) weights).map (·.params) = points) := by
+  refine ⟨fun s hs => ?_, fun hl => ?_⟩
+  · have := mem_fromLists_map L prior points _ s hs
+    exact ⟨⟨this.2.1, this.2.2.1⟩, this.1⟩
+  · exact fromLists_params_of_length _ _ _ _ (by simp) (by simp) (by simp [hl])
+
+example : nautilusConv intOps wPrior [[1], [2]] [0, 0] ([[1], [2]].map wL) = [⟨[1], 1, 0, 1⟩, ⟨[2], 2, 0, 1⟩] := by
+  decide
+example : ultranestConv wPrior [[1], [2]] ([[1], [2]].map wL) [3, 4] = [⟨[1], 1, 0, 3⟩, ⟨[2], 2, 0, 4⟩] := by
+  decide
+
+/-- **Weights (Nautilus)** are `exp(·)`, hence non-negative -/
+theorem weights_nonneg_nautilus (o : SOps V) (hexp : ∀ x, o.le o.zero (o.exp x) = true) (prior : List V → V)
+    (points : List (List V)) (logw logl : List V) :
+    ∀ s ∈ nautilusConv o prior points logw logl, o.le o.zero s.w = true := by
+  intro s hs
+  obtain ⟨x, _, hx⟩ := List.mem_map.1 (mem_fromLists _ _ _ _ s hs).2.2.2
+  rw [← hx]
+  exact hexp _
+
+/-- **Weights (UltraNest)** are the sampler's own (contract: non-negative), handed on unchanged -/
+theorem weights_nonneg_ultranest (o : SOps V) (prior : List V → V) (points : List (List V)) (logl weights : List V)
+    (hw : ∀ w ∈ weights, o.le o.zero w = true) :
+    ∀ s ∈ ultranestConv prior points logl weights, o.le o.zero s.w = true :=
+  fun s hs => hw _ (mem_fromLists _ _ _ _ s hs).2.2.2
+
+/-! ## Zeus -/
+
+/-- **Zeus, repaired slice.** contract: `get_log_prob()[s][w]` is the posterior `L + prior` of
+`get_chain()[s][w]`, and `flat=True` reshapes both arrays in the same order (`hnat`: the flattening of the
+log-probabilities is the flattening of the rows, entry by entry). For every `discard`, `thin` and chain shape the
+reported list is exactly the sliced, flattened chain, each row with its own likelihood, prior and weight 1. -/
+theorem zeus_faithful (o : SOps V) (L prior : List V → V) (hsub : ∀ a b, o.sub (o.add a b) b = a)
+    (flatP : List (List (List V)) → List (List V)) (flatL : List (List V) → List V)
+    (hnat : ∀ (f : List V → V) (m : List (List (List V))), flatL (m.map (List.map f)) = (flatP m).map f)
+    (chain : List (List (List V))) (discard thin : Nat) :
+    zeusConv { zeusSameSlice := true } o prior flatP flatL chain
+        (chain.map (List.map (fun r => o.add (L r) (prior r)))) discard thin
+      = (flatP (zeusSlice discard thin chain)).map (fun r => ⟨r, L r, prior r, o.one⟩) := by
+  simp only [zeusConv, if_true, zeusSlice_map, hnat]
+  exact conv_of_posts o L prior hsub _
+
+/-- the two flattenings the driver runs (step-major = `order='C'`, walker-major = `order='F'`) satisfy `hnat` -/
+theorem zeus_flattenings_natural (w : Nat) (f : List V → V) (m : List (List (List V))) :
+    List.flatten (m.map (List.map f)) = (List.flatten m).map f ∧
+    walkerMajor w (m.map (List.map f)) = (walkerMajor w m).map f :=
+  ⟨flatten_map_map f m, walkerMajor_map f w m⟩
+
+/-- … hence, in either order, every reported sample is faithful and is a row of a step the sampler took -/
+theorem zeus_faithful_mem (o : SOps V) (L prior : List V → V) (hsub : ∀ a b, o.sub (o.add a b) b = a)
+    (chain : List (List (List V))) (discard thin : Nat) (s : Sample V)
+    (hs : s ∈ zeusConv { zeusSameSlice := true } o prior List.flatten List.flatten chain
+        (chain.map (List.map (fun r => o.add (L r) (prior r)))) discard thin) :
+    Faithful L prior s ∧ ∃ step ∈ chain, s.params ∈ step := by
+  rw [zeus_faithful o L prior hsub List.flatten List.flatten (fun f m => flatten_map_map f m)] at hs
+  obtain ⟨r, hr, rfl⟩ := List.mem_map.1 hs
+  refine ⟨⟨rfl, rfl⟩, ?_⟩
+  obtain ⟨step, hstep, hrs⟩ := List.mem_flatten.1 hr
+  exact ⟨step, (zeusSlice_sublist discard thin chain).subset hstep, hrs⟩
+
+theorem zeus_faithful_walker_major (o : SOps V) (L prior : List V → V) (hsub : ∀ a b, o.sub (o.add a b) b = a)
+    (w : Nat) (chain : List (List (List V))) (discard thin : Nat) :
+    ∀ s ∈ zeusConv { zeusSameSlice := true } o prior (walkerMajor w) (walkerMajor w) chain
+        (chain.map (List.map (fun r => o.add (L r) (prior r)))) discard thin, Faithful L prior s := by
+  intro s hs
+  rw [zeus_faithful o L prior hsub (walkerMajor w) (walkerMajor w) (fun f m => walkerMajor_map f w m)] at hs
+  obtain ⟨r, _, rfl⟩ := List.mem_map.1 hs
+  exact ⟨rfl, rfl⟩
+
+/-- **Zeus, pinned commit: refuted.** `get_log_prob(flat=True)` without `discard`/`thin`: 2 steps × 2 walkers,
+`discard = 1`, `thin = 1`, log-probabilities satisfying the contract: the row `[2]` is reported with
+likelihood 0 (repaired by `fixes/C05-zeus-log-prob-same-slice.patch`). -/
+theorem zeus_refuted_when_flag_off :
+    ∃ s ∈ zeusConv { zeusSameSlice := false } intOps wPrior List.flatten List.flatten wChain
+        (wChain.map (List.map (fun r => intOps.add (wL r) (wPrior r)))) 1 1,
+      ¬ Faithful wL wPrior s := by
+  refine ⟨⟨[2], 0, 0, 1⟩, by decide, by decide⟩
+
+example : zeusConv { zeusSameSlice := true } intOps wPrior List.flatten List.flatten wChain
+    (wChain.map (List.map (fun r => intOps.add (wL r) (wPrior r)))) 1 1
+    = [⟨[2], 2, 0, 1⟩, ⟨[3], 3, 0, 1⟩] := by decide
+/-- walker-major: walker 0 of every kept step first -/
+example : zeusConv { zeusSameSlice := true } intOps wPrior (walkerMajor 2) (walkerMajor 2) wChain
+    (wChain.map (List.map (fun r => intOps.add (wL r) (wPrior r)))) 0 1
+    = [⟨[0], 0, 0, 1⟩, ⟨[2], 2, 0, 1⟩, ⟨[1], 1, 0, 1⟩, ⟨[3], 3, 0, 1⟩] := by decide
+
+/-! ## weights sum to one where the sampler normalises (exact arithmetic) -/
+
+/-- **Dynesty weights are normalised.** over the reals, with one row, likelihood and weight per sample and
+dynesty's contract `logz[-1] = log Σ exp(logwt)`: the reported weights `exp(logwt − logz[-1])` sum to 1. -/
+theorem dynesty_weights_sum_one (prior : List ℝ → ℝ) (samples : List (List ℝ)) (logl logwt logz : List ℝ) (z : ℝ)
+    (ss : List (Sample ℝ)) (h1 : samples.length = logwt.length) (h2 : logl.length = logwt.length)
+    (hz : logz.getLast? = some z) (hnorm : Real.exp z = (logwt.map Real.exp).sum)
+    (h : dynestyConv realSOps prior samples logl logwt logz = some ss) : weightSum realSOps ss = 1 := by
+  simp only [dynestyConv, hz, Option.some.injEq] at h
+  subst h
+  rw [weightSum_real, fromLists_w_of_length _ _ _ _ (by simpa using h1) (by simpa using h2) (by simpa using h1)]
+  show (logwt.map (fun x => Real.exp (x - z))).sum = 1
+  rw [sum_exp_sub, ← hnorm, div_self (Real.exp_ne_zero z)]
+
+/-- **Nautilus weights are normalised** when `posterior()` returns normalised log-weights (its contract) -/
+theorem nautilus_weights_sum_one (prior : List ℝ → ℝ) (points : List (List ℝ)) (logw logl : List ℝ)
+    (h1 : points.length = logw.length) (h2 : logl.length = logw.length) (hnorm : (logw.map Real.exp).sum = 1) :
+    weightSum realSOps (nautilusConv realSOps prior points logw logl) = 1 := by
+  rw [weightSum_real, nautilusConv,
+    fromLists_w_of_length _ _ _ _ (by simpa using h1) (by simpa using h2) (by simpa using h1)]
+  exact hnorm
+
+/-- **UltraNest weights** sum to whatever the sampler's weights sum to (1 by its contract) -/
+theorem ultranest_weights_sum (prior : List ℝ → ℝ) (points : List (List ℝ)) (logl weights : List ℝ)
+    (h1 : points.length = weights.length) (h2 : logl.length = weights.length) :
+    weightSum realSOps (ultranestConv prior points logl weights) = weights.sum := by
+  rw [weightSum_real, ultranestConv,
+    fromLists_w_of_length _ _ _ _ h1 h2 (by simpa using h1)]
+
+/-- **Uniform weights** (MCMC, optimisers, Drawer: every weight 1) sum to the number of samples -/
+theorem uniform_weights_sum (ss : List (Sample ℝ)) (h : ∀ s ∈ ss, s.w = 1) : weightSum realSOps ss = ss.length := by
+  rw [weightSum_real]
+  induction ss with
+  | nil => simp
+  | cons s ss ih =>
+    simp only [List.map_cons, List.sum_cons, List.length_cons, h s (by simp),
+      ih (fun t ht => h t (List.mem_cons_of_mem _ ht))]
+    push_cast; ring
+
+example : weightSum intOps [⟨[1], 0, 0, 2⟩, ⟨[2], 0, 0, 3⟩] = 5 := by decide
+/-- the hypotheses of `dynesty_weights_sum_one` are satisfiable: one sample, `logz = [logwt]` -/
+example : weightSum realSOps ((dynestyConv realSOps (fun _ => 0) [[1]] [2] [3] [3]).getD []) = 1 := by
+  have h : dynestyConv realSOps (fun _ => 0) [[1]] [2] [3] [3]
+      = some (fromLists [[1]] [2] ([[1]].map (fun _ => (0 : ℝ))) ([3].map (fun x => realSOps.exp (realSOps.sub x 3)))) := rfl
+  rw [h, Option.getD_some]
+  exact dynesty_weights_sum_one (fun _ => 0) [[1]] [2] [3] [3] 3 _ rfl rfl rfl (by simp) h
+
+/-! ## transformations of a reported sample list -/
+
+/-- **Threshold.** `samples_above_weight_threshold_from` keeps, in order and untouched, exactly the samples
+whose weight exceeds the threshold -/
+theorem threshold_keeps (o : SOps V) (thr : V) (ss : List (Sample V)) :
+    (aboveThreshold o thr ss).Sublist ss ∧
+    ∀ s, s ∈ aboveThreshold o thr ss ↔ s ∈ ss ∧ o.lt thr s.w = true :=
+  ⟨List.filter_sublist, fun s => by simp [aboveThreshold, List.mem_filter]⟩
+
+/-- … and when the best-fit sample passes the threshold it is still the best fit (same sample, not only the same
+likelihood) -/
+theorem threshold_keeps_best (o : SOps V)
+    (htr : ∀ a b c, o.lt a b = true → o.lt b c = true → o.lt a c = true)
+    (hnt : ∀ a b c, o.lt a c = true → o.lt a b = true ∨ o.lt b c = true)
+    (thr : V) (ss : List (Sample V)) (b : Sample V) (hb : maxSample o ss = some b) (hw : o.lt thr b.w = true) :
+    maxSample o (aboveThreshold o thr ss) = some b := by
+  obtain ⟨pre, post, rfl, hpre, hpost⟩ := best_is_first_max o htr hnt ss b hb
+  have : aboveThreshold o thr (pre ++ b :: post)
+      = pre.filter (fun s => o.lt thr s.w) ++ b :: post.filter (fun s => o.lt thr s.w) := by
+    simp [aboveThreshold, hw]
+  rw [this]
+  exact maxSample_of_first_max o _ _ b (fun s hs => hpre s (List.mem_filter.1 hs).1)
+    (fun s hs => hpost s (List.mem_filter.1 hs).1)
+
+example : aboveThreshold intOps 1 [⟨[1], -5, 0, 1⟩, ⟨[2], 3, 0, 2⟩, ⟨[3], 3, 0, 0⟩, ⟨[4], 9, 0, 5⟩]
+    = [⟨[2], 3, 0, 2⟩, ⟨[4], 9, 0, 5⟩] := by decide
+
+/-- **Any selection that keeps the best sample keeps the best likelihood** (`<` a linear order, no NaN):
+a list made of samples of `ss`, in any order, that contains the best-fit sample of `ss` has the same
+best-fit likelihood -/
+theorem best_ll_of_selection_with_best (o : SOps V) (hirr : ∀ a, o.lt a a = false)
+    (htr : ∀ a b c, o.lt a b = true → o.lt b c = true → o.lt a c = true)
+    (hnt : ∀ a b c, o.lt a c = true → o.lt a b = true ∨ o.lt b c = true)
+    (htot : ∀ a b, o.lt a b = false → o.lt b a = false → a = b)
+    (ss l : List (Sample V)) (b : Sample V) (hb : maxSample o ss = some b) (hsub : ∀ s ∈ l, s ∈ ss) (hmem : b ∈ l) :
+    bestLL o l = bestLL o ss := by
+  have hss : bestLL o ss = some b.ll := by simp [bestLL, hb]
+  cases hl : maxSample o l with
+  | none => rw [(best_exists_iff o l).1 hl] at hmem; simp at hmem
+  | some c =>
+    have hcl : bestLL o l = some c.ll := by simp [bestLL, hl]
+    have h1 := (best_is_max o hirr htr hnt l c.ll hcl).2 b hmem
+    have hc : c ∈ l := by
+      obtain ⟨pre, post, rfl, _, _⟩ := best_is_first_max o htr hnt l c hl
+      simp
+    have h2 := (best_is_max o hirr htr hnt ss b.ll hss).2 c (hsub c hc)
+    rw [hcl, hss, htot _ _ h1 h2]
+
+/-- the position reported with the best sample is its position, and the sample is `max_log_likelihood_sample` -/
+theorem maxLLIdx_spec (o : SOps V) (ss : List (Sample V)) :
+    (maxLLIdx o ss).map (·.1) = maxSample o ss ∧ ∀ a, maxLLIdx o ss = some a → ss[a.2]? = some a.1 := by
+  refine ⟨?_, fun a h => getElem?_of_mem_zipIdx ss a.1 a.2 (pickFirst_mem _ _ a h)⟩
+  rw [maxSample_eq_pickFirst]
+  have := pickFirst_map (Prod.fst : Sample V × Nat → Sample V) (fun b s => o.lt b.ll s.ll) ss.zipIdx
+  rw [List.zipIdx_map_fst] at this
+  exact this.symm
+
+/-- **max_log_posterior_index is the first maximum of the posterior** (`np.argmax`) when no posterior is NaN and
+`<` is a strict weak order: it is reported with its own position, every earlier sample has a strictly smaller
+posterior and no later one a larger one. (With a NaN among the posteriors `np.argmax` returns the first NaN:
+`npBetter`, compared with the code on lists containing NaN.) -/
+theorem maxPostIdx_first_max (o : SOps V) (nan : V → Bool) (hnan : ∀ x, nan x = false)
+    (htr : ∀ a b c, o.lt a b = true → o.lt b c = true → o.lt a c = true)
+    (hnt : ∀ a b c, o.lt a c = true → o.lt a b = true ∨ o.lt b c = true)
+    (ss : List (Sample V)) (b : Sample V × Nat) (h : maxPostIdx o nan ss = some b) :
+    ss[b.2]? = some b.1 ∧ ∃ pre post, ss.zipIdx = pre ++ b :: post ∧
+      (∀ s ∈ pre, o.lt (s.1.post o) (b.1.post o) = true) ∧
+      (∀ s ∈ post, o.lt (b.1.post o) (s.1.post o) = false) := by
+  refine ⟨getElem?_of_mem_zipIdx ss b.1 b.2 (pickFirst_mem _ _ b h), ?_⟩
+  have hb : (fun (x y : Sample V × Nat) => npBetter o nan (x.1.post o) (y.1.post o))
+      = (fun x y => o.lt ((fun (s : Sample V × Nat) => s.1.post o) x) ((fun (s : Sample V × Nat) => s.1.post o) y)) := by
+    funext x y; simp [npBetter, hnan]
+  unfold maxPostIdx at h
+  rw [hb] at h
+  exact pickFirst_first_max o.lt (fun (s : Sample V × Nat) => s.1.post o) htr hnt ss.zipIdx b h
+
+/-- posteriors −5, 3, 6, 6: the first of the two largest is at position 2 -/
+example : maxPostIdx intOps (fun _ => false) [⟨[1], -5, 0, 1⟩, ⟨[2], 3, 0, 1⟩, ⟨[3], 2, 4, 1⟩, ⟨[4], 3, 3, 1⟩]
+    = some (⟨[3], 2, 4, 1⟩, 2) := by decide
+/-- a "NaN" (here: the value 99 is declared one) wins although a larger value follows, and the first one wins -/
+example : maxPostIdx intOps (fun x => x == 99) [⟨[1], 1, 0, 1⟩, ⟨[2], 99, 0, 1⟩, ⟨[3], 200, 0, 1⟩, ⟨[4], 99, 0, 1⟩]
+    = some (⟨[2], 99, 0, 1⟩, 1) := by decide
+
+/-- **minimise.** whatever the likelihood and posterior values (NaN included): every sample `minimise()` keeps
+is the entry of the original list at the position it is reported with, `max_log_likelihood_sample` is among
+them, and at most two are kept -/
+theorem minimise_sound (o : SOps V) (nan : V → Bool) (ss : List (Sample V)) (l : List (Sample V × Nat))
+    (h : minimise o nan ss = some l) :
+    (∀ a ∈ l, ss[a.2]? = some a.1) ∧ (∃ a ∈ l, maxSample o ss = some a.1) ∧ l.length ≤ 2 := by
+  unfold minimise at h
+  cases ha : maxLLIdx o ss with
+  | none => simp [ha] at h
+  | some a =>
+    cases hb : maxPostIdx o nan ss with
+    | none => simp [ha, hb] at h
+    | some b =>
+      have hai := (maxLLIdx_spec o ss).2 a ha
+      have hbi := getElem?_of_mem_zipIdx ss b.1 b.2 (pickFirst_mem _ _ b hb)
+      have hbest : maxSample o ss = some a.1 := by rw [← (maxLLIdx_spec o ss).1, ha]; rfl
+      simp only [ha, hb] at h
+      split at h <;> simp only [Option.some.injEq] at h <;> subst h
+      · exact ⟨by simpa using hai, ⟨a, by simp, hbest⟩, by simp⟩
+      · exact ⟨by simp [hai, hbi], ⟨a, by simp, hbest⟩, by simp⟩
+
+/-- **minimise keeps the best likelihood in whatever order the set is listed** (`<` a linear order) -/
+theorem minimise_keeps_best (o : SOps V) (nan : V → Bool) (hirr : ∀ a, o.lt a a = false)
+    (htr : ∀ a b c, o.lt a b = true → o.lt b c = true → o.lt a c = true)
+    (hnt : ∀ a b c, o.lt a c = true → o.lt a b = true ∨ o.lt b c = true)
+    (htot : ∀ a b, o.lt a b = false → o.lt b a = false → a = b)
+    (ss : List (Sample V)) (l : List (Sample V × Nat)) (h : minimise o nan ss = some l)
+    (order : List (Sample V)) (hperm : order.Perm (l.map (·.1))) : bestLL o order = bestLL o ss := by
+  obtain ⟨hidx, ⟨a, hal, hbest⟩, _⟩ := minimise_sound o nan ss l h
+  refine best_ll_of_selection_with_best o hirr htr hnt htot ss order a.1 hbest (fun s hs => ?_) ?_
+  · obtain ⟨c, hc, rfl⟩ := List.mem_map.1 (hperm.subset hs)
+    exact List.mem_of_getElem? (hidx c hc)
+  · exact hperm.symm.subset (List.mem_map.2 ⟨a, hal, rfl⟩)
+
+/-- the best likelihood sample is at 1, the best posterior sample at 2: both are kept -/
+example : minimise intOps (fun _ => false) [⟨[1], -5, 0, 1⟩, ⟨[2], 3, 0, 1⟩, ⟨[3], 2, 4, 1⟩, ⟨[4], 3, 0, 1⟩]
+    = some [(⟨[2], 3, 0, 1⟩, 1), (⟨[3], 2, 4, 1⟩, 2)] := by decide
+example : minimise intOps (fun _ => false) wSamples = some [(⟨[2], 3, 0, 1⟩, 1)] := by decide
+example : minimise intOps (fun _ => false) ([] : List (Sample Int)) = none := by decide
+
+/-- **with_paths / without_paths keep every sample's likelihood, prior and weight and the values of the keys
+they keep**: the kept entries are a sub-list of the stored ones (same order, same values), selected by the
+path test alone -/
+theorem paths_keep_tuple {A : Type} [DecidableEq A] (paths : List (List A)) (s : KSample (List A) V) :
+    ((withPathsK paths s).ll = s.ll ∧ (withPathsK paths s).lp = s.lp ∧ (withPathsK paths s).w = s.w ∧
+      (withPathsK paths s).kwargs.Sublist s.kwargs ∧
+      ∀ e, e ∈ (withPathsK paths s).kwargs ↔ e ∈ s.kwargs ∧ pathMatch paths e.1 = true) ∧
+    ((withoutPathsK paths s).ll = s.ll ∧ (withoutPathsK paths s).lp = s.lp ∧ (withoutPathsK paths s).w = s.w ∧
+      (withoutPathsK paths s).kwargs.Sublist s.kwargs ∧
+      ∀ e, e ∈ (withoutPathsK paths s).kwargs ↔ e ∈ s.kwargs ∧ pathMatch paths e.1 = false) :=
+  ⟨⟨rfl, rfl, rfl, List.filter_sublist, fun e => by simp [withPathsK, List.mem_filter]⟩,
+   ⟨rfl, rfl, rfl, List.filter_sublist, fun e => by simp [withoutPathsK, List.mem_filter]⟩⟩
+
+/-- **… and the best fit**: the best sample of the reduced list is the reduction of the best sample; storing
+the converted samples under their keys does not move it either -/
+theorem paths_keep_best {A : Type} [DecidableEq A] (o : SOps V) (paths : List (List A))
+    (ss : List (KSample (List A) V)) :
+    maxSampleK o (ss.map (withPathsK paths)) = (maxSampleK o ss).map (withPathsK paths) ∧
+    maxSampleK o (ss.map (withoutPathsK paths)) = (maxSampleK o ss).map (withoutPathsK paths) :=
+  ⟨pickFirst_map (withPathsK paths) (fun b s => o.lt b.ll s.ll) ss,
+   pickFirst_map (withoutPathsK paths) (fun b s => o.lt b.ll s.ll) ss⟩
+
+theorem stored_keep_best {K : Type} (o : SOps V) (keys : List K) (ss : List (Sample V)) :
+    maxSampleK o (ss.map (toK keys)) = (maxSample o ss).map (toK keys) := by
+  rw [maxSample_eq_pickFirst]
+  exact pickFirst_map (toK keys) (fun b s => o.lt b.ll s.ll) ss
+
+/-- naming a sample's own keys keeps all of it -/
+theorem with_own_paths {A : Type} [DecidableEq A] (s : KSample (List A) V) :
+    withPathsK (s.kwargs.map (·.1)) s = s := by
+  have : s.kwargs.filter (fun e => pathMatch (s.kwargs.map (·.1)) e.1) = s.kwargs := by
+    rw [List.filter_eq_self]
+    intro e he
+    simp only [pathMatch, List.any_eq_true]
+    exact ⟨e.1, List.mem_map.2 ⟨e, he, rfl⟩, zipAllEq_refl _⟩
+  cases s
+  simp only [withPathsK] at this ⊢
+  simp [this]
+
+def wK : KSample (List String) Int := toK [["g", "a"], ["g", "b"], ["h", "a"]] ⟨[10, 20, 30], 7, 1, 2⟩
+
+example : withPathsK [["g"]] wK = ⟨[(["g", "a"], 10), (["g", "b"], 20)], 7, 1, 2⟩ := by decide
+example : withoutPathsK [["g"]] wK = ⟨[(["h", "a"], 30)], 7, 1, 2⟩ := by decide
+/-- a key that is a proper prefix of the path matches as well (`zip` stops at the shorter one) -/
+example : withPathsK [["h", "a", "zz"]] wK = ⟨[(["h", "a"], 30)], 7, 1, 2⟩ := by decide
+example : maxSampleK intOps (wSamples.map (toK [["x"]])) = some (toK [["x"]] ⟨[2], 3, 0, 1⟩) := by decide
 
 end AF.C05
